@@ -564,3 +564,44 @@ Definition py_dict_values (d : pv) : pr pv :=
   | VDict kv => POk (VList (map snd kv))
   | _ => PStuck
   end.
+
+(* ---------- additions for sign_authorized (fourth group) ---------- *)
+
+(* n.to_bytes(k, byteorder="little", signed=False): OverflowError when negative or too big *)
+Definition py_to_bytes_le (v k : pv) : pr pv :=
+  match vint v, vint k with
+  | Some n, Some kk =>
+      if (kk <? 0)%Z then PRaise ValueError else
+      match to_bytes_le (Z.to_nat kk) n with
+      | Some b => POk (VBytes b)
+      | None => PRaise OverflowError
+      end
+  | _, _ => PStuck
+  end.
+
+(* identity of enum members / plain record objects: same class and the same fields *)
+Fixpoint pv_same (a b : pv) {struct a} : bool :=
+  match a, b with
+  | VNone, VNone => true
+  | VBool x, VBool y => Bool.eqb x y
+  | VInt x, VInt y => (x =? y)%Z
+  | VStr x, VStr y => str_eqb x y
+  | VBytes x, VBytes y => bytes_eqb x y
+  | VObj c f, VObj c' f' =>
+      String.eqb c c' &&
+      (fix go (l m : list (string * pv)) : bool :=
+         match l, m with
+         | [], [] => true
+         | (k, x) :: l', (k', y) :: m' => String.eqb k k' && pv_same x y && go l' m'
+         | _, _ => false
+         end) f f'
+  | _, _ => false
+  end.
+
+(* a == b where both sides may be enum members (objects): equal iff the same member *)
+Definition py_eq_obj (a b : pv) : pr bool :=
+  match a, b with
+  | VObj _ _, VObj _ _ => POk (pv_same a b)
+  | VObj _ _, _ | _, VObj _ _ => POk false
+  | _, _ => py_eq a b
+  end.
